@@ -1,13 +1,14 @@
 package hx
 
 import (
-	"sync/atomic"
 	"context"
 	"crypto/sha256"
 	"encoding/hex"
+	"encoding/json"
 	"fmt"
 	"math/rand"
 	"sync"
+	"sync/atomic"
 	"time"
 
 	"github.com/nautilus/gateway"
@@ -47,7 +48,59 @@ func shaHex(s string) string {
 	return hex.EncodeToString(h[:])
 }
 
+// batchKeys: a batch on a caching gateway in which some members carry a persisted-query hash and others none: every
+// member is keyed by its own hash or by the sha256 of its own text, so it gets the answer it gets alone
+func batchKeys(c *Ctx, r *rand.Rand) []Failure {
+	store := GenStore(rand.New(rand.NewSource(5)), false)
+	texts := []string{`{ me { firstName lastName } }`, `{ allUsers { firstName nick } }`, `{ topPhoto { url likes } }`, `{ me { nick } }`}
+	n := 2 + r.Intn(3)
+	var ops []interface{}
+	var solo []string
+	for k := 0; k < n; k++ {
+		t := texts[r.Intn(len(texts))]
+		op := map[string]interface{}{"query": t}
+		if r.Intn(2) == 0 {
+			op["extensions"] = map[string]interface{}{"persistedQuery": map[string]interface{}{"version": 1, "sha256Hash": shaHex(t)}}
+		}
+		ops = append(ops, op)
+		fresh, err := NewFed(FixedFed(), store)
+		if err != nil {
+			return nil
+		}
+		o := fresh.Run(t, "", nil, 5*time.Second)
+		solo = append(solo, Canon(o.Data))
+	}
+	cached, err := NewFed(FixedFed(), store, gateway.WithAutomaticQueryPlanCache())
+	if err != nil {
+		return nil
+	}
+	body, _ := json.Marshal(ops)
+	for round := 0; round < 2; round++ {
+		rec, p := HTTPCase{Method: "POST", Target: "/graphql", ContentType: "application/json", Body: string(body)}.Serve(cached.GW)
+		if p != nil {
+			return []Failure{{Channel: "crash", Classifier: "unclassified", What: fmt.Sprint(p), Input: ops}}
+		}
+		var list []map[string]interface{}
+		if json.Unmarshal(rec.Body.Bytes(), &list) != nil || len(list) != n {
+			return []Failure{{Channel: "L0.cache-batch", Classifier: "unclassified", What: "a batch on the caching gateway is not answered with one response per member", Input: ops, Observed: truncate(rec.Body.String(), 400)}}
+		}
+		for k := range list {
+			if Canon(list[k]["data"]) != solo[k] {
+				return []Failure{{Channel: "L0.cache-batch", Classifier: "unclassified",
+					What:  fmt.Sprintf("member %d of a batch on the caching gateway (round %d) is not answered like its own text on a cache-less gateway (a member without a hash is keyed by the sha256 of ITS text)", k, round),
+					Input: ops, Expected: solo[k], Observed: list[k]}}
+			}
+		}
+	}
+	return nil
+}
+
 func (c12) Run(c *Ctx, i int) CaseResult {
+	if i%6 == 5 {
+		if bf := batchKeys(c, c.Rand(i+72000000)); len(bf) > 0 {
+			return CaseResult{ID: fmt.Sprintf("gen:%d", i), Nontrivial: true, Fails: bf}
+		}
+	}
 	r := c.Rand(i + 71000000)
 	const ttl = 150 * time.Millisecond
 	res := CaseResult{ID: fmt.Sprintf("gen:%d", i)}
